@@ -53,6 +53,19 @@ func hostile(r *RNG, max int) []byte {
 	return out
 }
 
+// a value far beyond every size threshold in zap's buffers and pools (64 KiB and up), built from hostile chunks
+func hugeBytes(r *RNG, n int) []byte {
+	chunk := hostile(r, 96)
+	if len(chunk) == 0 {
+		chunk = []byte("x")
+	}
+	out := make([]byte, 0, n+len(chunk))
+	for len(out) < n {
+		out = append(out, chunk...)
+	}
+	return out
+}
+
 var plainKeys = []string{"a", "b", "c", "k", "key", "msg", "level", "ts", "x", "n"}
 
 func genKey(r *RNG) []byte {
@@ -614,6 +627,8 @@ type genState struct {
 	size int // node budget
 	// feature flags of the case (for meta)
 	nested, nsp, esc, fault bool
+	// huge > 0: the next string-valued field gets a value of about this many bytes
+	huge int
 }
 
 func optMsg(r *RNG, p int) (error, SX) {
@@ -808,10 +823,18 @@ func (g *genState) field(depth int) (zapcore.Field, SX) {
 		return zap.Float32(k, w), L(I(3), B(key), fvOf(float64(w), 32))
 	case 4, 18, 19:
 		v := hostile(r, 16)
+		if g.huge > 0 {
+			v = hugeBytes(r, g.huge)
+			g.huge = 0
+		}
 		g.esc = true
 		return zap.String(k, string(v)), L(I(4), B(key), B(v))
 	case 5:
 		v := hostile(r, 12)
+		if g.huge > 0 {
+			v = hugeBytes(r, g.huge)
+			g.huge = 0
+		}
 		g.esc = true
 		return zap.ByteString(k, v), L(I(5), B(key), B(v))
 	case 6:
@@ -994,6 +1017,8 @@ type encCase struct {
 	preuse int
 	// active: the sink touches the pools (logs through another core) before it copies the payload
 	active bool
+	// hugePre: value of the string field of the oversize pre-use entry (preuse 4)
+	hugePre []byte
 }
 
 func genEncCase(r *RNG, big bool) *encCase {
@@ -1009,6 +1034,7 @@ func genEncCase(r *RNG, big bool) *encCase {
 		c.lvl, c.tim, c.dur, c.cal, c.nam = 2, timEpoch, durSeconds, 3, 2
 	}
 	ec := &encCase{cfg: c}
+	hugeCase := false // judged entries stay small (the extracted parser is quadratic in the line length); see preuse 4
 	nctx := 0
 	if r.Chance(60) {
 		nctx = r.Range(1, 4)
@@ -1032,7 +1058,7 @@ func genEncCase(r *RNG, big bool) *encCase {
 	for _, p := range []struct {
 		b bool
 		s string
-	}{{g.nested, "N"}, {g.nsp, "S"}, {g.esc, "E"}, {g.fault, "F"}, {nctx > 0, "W"}, {c.tim == timLayout, "L"}} {
+	}{{g.nested, "N"}, {g.nsp, "S"}, {g.esc, "E"}, {g.fault, "F"}, {nctx > 0, "W"}, {c.tim == timLayout, "L"}, {hugeCase && g.huge == 0, "H"}} {
 		if p.b {
 			cls += p.s
 		}
@@ -1041,6 +1067,11 @@ func genEncCase(r *RNG, big bool) *encCase {
 		cls = "plain"
 	}
 	ec.preuse = r.Intn(4)
+	if r.Intn(40) == 0 {
+		// an oversize entry (beyond the 64 KiB thresholds of zap's pools) goes through the same core first
+		ec.preuse = 4
+		ec.hugePre = hugeBytes(r, []int{70 << 10, 130 << 10, 300 << 10}[r.Intn(3)])
+	}
 	ec.active = r.Chance(30)
 	ec.meta = map[string]string{"nt": nt, "class": cls, "pre": fmt.Sprint(ec.preuse), "active": fmt.Sprint(ec.active)}
 	return ec
@@ -1114,6 +1145,12 @@ func (ec *encCase) runJSON(console bool) ([]byte, string, bool) {
 			var pf []zapcore.Field
 			if ec.preuse == 2 {
 				pf = ec.fields
+			}
+			if ec.preuse == 4 {
+				pre.Message = string(ec.hugePre[:len(ec.hugePre)/2])
+				pf = []zapcore.Field{{Key: "huge", Type: zapcore.StringType, String: string(ec.hugePre)},
+					{Key: "hugeb", Type: zapcore.ByteStringType, Interface: ec.hugePre},
+					{Key: "huger", Type: zapcore.ReflectType, Interface: string(ec.hugePre[:70<<10])}}
 			}
 			_ = core.Write(pre, pf)
 			if ec.preuse == 3 {
